@@ -99,7 +99,8 @@ def run_history(rec, case):
     rec.evaluations += 1
     script = [rng.choice([None, None, None, None, True, False, 'no', 'raise',
                           0, {'e': 1}]) for _ in range(1500)]
-    sim = scen.make_sim(srv, server_kwargs={
+    sim = scen.make_sim(srv, real_ws_driver=bool(case.get('tws')),
+                        server_kwargs={
         'ping_interval': pi, 'ping_timeout': pt, 'monitor_clients': monitor},
         handler_cfg={'connect': script}, policy='random',
         seed=rng.randrange(1 << 30), yield_prob=rng.choice([0.0, 0.2]))
@@ -414,6 +415,8 @@ def run_shard(spec):
         c['aio'] = 'H'
     for c in cases[2::4]:
         c['aio'] = 'N'     # ... and behind the tornado adapter
+    for c in cases[1::3]:
+        c['tws'] = True    # threaded server: the real simple_websocket driver
     if spec['shard'] == 0:
         scen.run_cases(rec, [{'block': [srv, how]} for srv in 'TAHN'
                              for how in ('disconnect-inside',
